@@ -15,8 +15,9 @@ CONSTANTS
   AbortSets <- MC_AbortSets_two
   MaxTicks = 3
   MaxCands = 2
-  MaxCandsA = 2
+  MaxCandsA = 1
   MaxAborts = 1
+  MaxFails = 0
   MaxJumps = 0
   PreNames = {"hub"}
   Export = TRUE
